@@ -136,13 +136,13 @@ def check(model, rep):
         zq = ('0*%s' % p[1], 'np.zeros(len(%s))' % p[1], '%s*0' % p[1])
         zf = ('np.zeros((6,1))', 'np.zeros(6)')
         want = ['self.inverseDynamics(%s,%s,%s,%s,%s)[0]' % (p[1], p[2], a_, p[3], f_) for a_ in zq for f_ in zf]
-        rep.ob('R08.3', cg, 'h = inverseDynamics(q, qd, 0, grav, F=0)[0]', bool(r) and il.same(r[0].value, want), 'coriolisGravity is %s' % (il.text(r[0].value) if r else '?'))
+        rep.ob('R08.3', cg, 'h = inverseDynamics(q, qd, 0, grav, F=0)[0]', bool(r) and all(x.value is not None and il.same(x.value, want) for x in r), 'coriolisGravity is %s' % (il.text(r[0].value) if r else '?'))
     fde = arm.methods.get('forwardDynamicsE')
     if fde is not None:
         p = fde.params
         il = Inliner(fde)
         r = returns_of(fde)
-        elts = r[0].value.elts if r and isinstance(r[0].value, ast.Tuple) else []
+        elts = r[0].value.elts if len(r) == 1 and isinstance(r[0].value, ast.Tuple) else []
         zl = ('np.zeros(len(%s))' % p[1], '0*%s' % p[1])
         ee_want = ['self.inverseDynamics(%s,%s,%s,np.zeros(3),%s)[0]' % (p[1], z1, z2, p[5]) for z1 in zl for z2 in zl]
         M_t, h_t = 'self.massMatrix(%s)' % p[1], 'self.coriolisGravity(%s,%s,%s)' % (p[1], p[2], p[4])
